@@ -153,6 +153,11 @@ def cursor_check(prop, tier, seed):
         gens.append(dm)
         gen("bfs", "mut", 1, 2, 1, [0, 1, 3, 9], MUT_OPS, putters, list(range(0, 9)), 100 if q else 10, take=4000)
         gen("sim", "mut", 3, 3, 3, [1, 3, 9], MUT_OPS, putters, list(range(0, 9)), 1, simulate=(1500 if q else 30000, 30), take=1500)
+        # growing targets with every small amount of spare capacity, two writes, unsampled (amortised growth hides most size errors)
+        gen("grow", "mut", 1, 1, 2, [0, 1, 2, 3], ["put_bytes", "put_slice", "put", "manual", "chunk_mut_len"], ["put_u32"], [0],
+            3 if q else 1, take=9000, leaf_types=["vec", "bytesmut"], wraps=("ref",))
+        # the same harness under AddressSanitizer: a write past a heap buffer that leaves lengths plausible ends the process there
+        results.append(K.run_and_validate("C11_asan", pick(results[-1]["progs"], 4000 if q else 9000, seed) + pick(results[0]["progs"], 1500, seed), profile="asan"))
     elif prop == "C12":
         dm = K.design_mc("C12_design", 3 if not q else 2, 2, 1 if q else 2, [2, 3], ["remaining", "advance", "copy_to_bytes", "chunks_vectored", "try_copy_to_slice"],
                          [], [0], leaf_types=["slice", "deque", "bytes"], wraps=("ref",), sample_k=150 if q else 300, seed=seed)
